@@ -415,3 +415,45 @@ contract(
     modifies=["expression"],
     obj_fields=TOK_FIELDS,
 )
+
+
+# ---- string scanners (C20: what the decoder may rely on; C02: no IndexError at end of input) -----------------
+Seg = z3.Function("PreUnits", z3.SeqSort(z3.IntSort()), z3.IntSort(), z3.IntSort(), z3.BoolSort())
+
+
+@spec("seg", lambda s, i, j: __import__("contracts.c_unescape", fromlist=["_scannable_py"])._scannable_py(s[i:j], 0))
+def _seg(ex, s, i, j):
+    """source[i:j] is a sequence of pre-units: a non-backslash character, or a backslash with its successor."""
+    return SBool(Seg(ex.to_str_term(s), ex.to_int_term(i), ex.to_int_term(j)))
+
+
+@spec("seg_def", None)
+def _seg_def(ex, s, i, j):
+    """Defining (inductive) equations of PreUnits at position j (instantiated, trusted definition)."""
+    s, i, j = ex.to_str_term(s), ex.to_int_term(i), ex.to_int_term(j)
+    n = z3.Length(s)
+    return SBool(z3.And(
+        Seg(s, i, i),
+        z3.Implies(z3.And(Seg(s, i, j), j >= i, j < n, s[j] != 92), Seg(s, i, j + 1)),
+        z3.Implies(z3.And(Seg(s, i, j), j >= i, j + 1 < n, s[j] == 92), Seg(s, i, j + 2))))
+
+
+contract(
+    "liquid2.lexer:Lexer.accept_string",
+    props=["C20", "C17", "C02"],
+    params={"self": Shared("lexer_self", LEXER(wc=WC1, **LISTS)), "quote": Union(Const("'"), Const('"'))},
+    pre=["self.start == self.pos", "0 <= self.pos and self.pos <= len(self.source)"],
+    lemmas=["seg_def(self.source, self.start, self.pos)"],
+    loops={0: {"inv": ["self.start == old(self.start)", "self.start <= self.pos and self.pos <= len(self.source)", "seg(self.source, self.start, self.pos)"],
+               "lemmas_init": ["seg_def(self.source, self.start, self.pos)"],
+               "lemmas_head": ["seg_def(self.source, self.start, self.pos)"],
+               "dec": "len(self.source) - self.pos"}},
+    post=[
+        "self.start == old(self.start)", "self.start <= self.pos and self.pos < len(self.source)",
+        "self.source[self.pos] == quote",                       # the closing quote is left for the caller
+        "seg(self.source, self.start, self.pos)",               # what `unescape` relies on (its Scannable precondition)
+    ],
+    post_exc=ERR_INSIDE,
+    raises={"LiquidSyntaxError": None},
+    modifies=["self.pos"],
+)
